@@ -136,7 +136,7 @@ CHECKS["C09"] = dict(
 
 CHECKS["C10"] = dict(
     engine="glyf",
-    technique="PARTIAL: an independent TrueType simple-glyph decoder written in TLA+ (Glyf.tla: flags/repeats, coordinate deltas, implied mid-points, contours as cyclic segment lists, extents, hmtx tail rule) evaluated by TLC on raw glyph bytes and compared with what the font package decodes",
+    technique="PARTIAL: an independent TrueType glyph decoder written in TLA+ (Glyf.tla: simple glyphs - flags/repeats, coordinate deltas, implied mid-points, contours as cyclic segment lists, extents, hmtx tail rule - and composite glyphs made of simple components placed by x/y offsets) evaluated by TLC on raw glyph bytes and compared with what the font package decodes",
     category="model_checking", design_ref="DESIGN.md §5 C10, §6",
     text="The property names reference decoders that do not exist in this sandbox; what the TLA+ family can supply is an independent decoder for the integer-only, case-rich part. For every sampled glyph of every TrueType corpus font TLC decodes the raw bytes and checks Outline (each contour equal up to rotation), Extents, Advance and Upem.",
     note="PARTIAL CLAIM: CFF/CFF2 outlines, composite glyphs, variable-font instances (gvar/HVAR/avar) and cmap byte-level decoding are NOT covered. Trusts the harness's slicing of glyf by loca and TLC.")
